@@ -28,6 +28,8 @@ OPS = {
     '"qc': (['"', "q", "c"], (1, 0, 1), "change", True),
     "y": (["y"], (2, 0, 0), "yank", False),
     '"qy': (['"', "q", "y"], (3, 0, 0), "yank", True),
+    '"7d': (['"', "7", "d"], (1, 1, 1), "delete", True),
+    '"7y': (['"', "7", "y"], (3, 0, 0), "yank", True),
     "g?": (["g", "?"], (4, 1, 0), "transform", False),
     "gu": (["g", "u"], (4, 2, 0), "transform", False),
     "gU": (["g", "U"], (4, 3, 0), "transform", False),
@@ -379,19 +381,18 @@ def oracle(text, cur, opname, m, n, obs, tobj, failed, alone):
     grp = m["group"] if m else "explicit"
     if obs["status"] != 0:
         if with_reg and obs["status"] == 2:
-            return ("named-register operator raised IndexError: the register name is read from the text object's key sequence", "register-name-from-motion-keys")
+            return ("named-register operator raised IndexError (register name read from a key sequence without it)", "named-register:" + grp)
         return ("operator raised (status %d)" % obs["status"], "raise:" + grp)
     if m and m["name"] == "gm":
         return None      # gm without a rendered window is an artefact of the harness environment
     if with_reg:
-        if obs["reg"] is not None and obs["reg"][0] != ord("q"):
-            return ("named-register operator wrote register %r instead of the typed register 'q'" % (chr(obs["reg"][0]) if obs["reg"][0] > 0 else "?"),
-                    "register-name-from-motion-keys")
+        if obs["reg"] is not None and obs["reg"][0] != ord(keys[1]):
+            return ("named-register operator wrote register %r instead of the typed register %r" % (chr(obs["reg"][0]) if obs["reg"][0] > 0 else "?", keys[1]),
+                    "named-register:" + grp)
         if obs["reg"] is None and cls == "yank" and not failed and tobj is not None and tobj[2] in (0, 1):
             lo_, hi_ = cur + min(tobj[0], tobj[1]), cur + max(tobj[0], tobj[1]) + (1 if tobj[2] == 1 else 0)
             if 0 <= lo_ < hi_ <= len(text) and text[lo_:hi_] != "\n":
-                return ("named-register yank of a non-empty span did not write the typed register 'q' (the name is read from the text object's key sequence)",
-                        "register-name-from-motion-keys")
+                return ("named-register yank of a non-empty span did not write the typed register", "named-register:" + grp)
         if obs["clip"] is not None:
             return ("named-register operator changed the unnamed clipboard", "register-clipboard")
     elif obs["reg"] is not None:
@@ -476,8 +477,7 @@ def oracle(text, cur, opname, m, n, obs, tobj, failed, alone):
             if why_reg:
                 why = "register does not hold exactly the removed characters with the right type"
             if with_reg and obs["reg"] is None and why_reg:
-                return ("delete/change into register 'q': the removed text was not stored (the register name is read from the text object's key sequence)",
-                        "register-name-from-motion-keys")
+                return ("delete/change into a named register: the removed text was not stored in the typed register", "named-register:" + grp)
             return ("delete/change: " + why, "delete-span:" + grp)
     elif cls == "yank":
         pass
@@ -556,7 +556,7 @@ def gen_cases(chk):
     texts = all_texts(maxn)
     # stratum: probability of keeping a (text, cursor, op, motion, count) point
     p_d = 1.0 if thorough else 0.10
-    p_o = 0.008
+    p_o = 0.006
     p_d4 = 0.05
     for t in texts:
         curs = nav_cursors(t)
@@ -599,12 +599,13 @@ def gen_cases(chk):
 
 
 def model_case(case, tobj=None):
-    """the sx case given to the Coq model"""
+    """the sx case given to the Coq model: (text cursor op arg count-typed operator-keys tok fix)"""
     if case[0] == "K":
         _, text, cur, opname, mname, c1, c2 = case
         m = MOTIONS[mname]
         n = (c1 or 1) * (c2 or 1)
-        kd = [ord(k) if len(k) == 1 else -1 for k in m["keys"]]
+        hc = 1 if (c1 or c2) else 0
+        kd = [ord(k) for k in OPS[opname][0]]
         if m["tok"] is None:
             if tobj is None:
                 tok = [0, 0, 0, 0]
@@ -612,9 +613,11 @@ def model_case(case, tobj=None):
                 tok = [0, tobj[0], tobj[1], tobj[2]]
         else:
             tok = list(m["tok"])
-        return [S(text), cur, list(OPS[opname][1]), n, kd, tok, 1]
+        return [S(text), cur, list(OPS[opname][1]), n, hc, kd, tok, 1]
     _, text, cur, opname, tob, arg, keyd = case
-    return [S(text), cur, list(OPS[opname][1]), arg, [ord(k) for k in keyd], [0, tob[0], tob[1], tob[2]], 0]
+    # the operator function installed by the operator key overwrites the event's key sequence
+    # with the operator's own keys, whatever the fabricated event carries
+    return [S(text), cur, list(OPS[opname][1]), arg, 1, [ord(k) for k in OPS[opname][0]], [0, tob[0], tob[1], tob[2]], 0]
 
 
 def describe_case(case):
@@ -634,7 +637,10 @@ def run_impl(sess, case):
         n = (c1 or 1) * (c2 or 1)
         obs, tobj, alone = run_keys(sess, text, cur, opname, mname, c1, c2)
         try:
-            failed = bool(m["failed"](Document(text, cur), n))
+            if mname == "%" and not (c1 or c2):
+                failed = Document(text, cur).find_matching_bracket_position() == 0
+            else:
+                failed = bool(m["failed"](Document(text, cur), n))
         except AssertionError:
             failed = False
         if m["tok"] is None:
@@ -708,12 +714,12 @@ def main(tier):
         # c is the model case: [text, cur, op, arg, keys, tok, fix]
         fields = ["status", "text", "cursor", "clipboard", "register", "insert-mode", "text-object", "failed"]
         diff = [fields[j] for j in range(min(len(a), len(m) if isinstance(m, list) else 0, 8)) if a[j] != m[j]]
-        return {"opkind": c[2][0], "tok": c[5][0], "differs": ",".join(diff) or "shape"}
+        return {"opkind": c[2][0], "tok": c[6][0], "differs": ",".join(diff) or "shape"}
 
     model_results, nbad = correspondence(
         chk, "c08", mcases, impl_results, tag2,
-        describe=lambda c, a, m: "text=%r cursor=%d op=%r arg=%d keys=%r tok=%r impl=%r model=%r" % (
-            unS(c[0]), c[1], c[2], c[3], c[4], c[5], show_res(a), show_res(m)),
+        describe=lambda c, a, m: "text=%r cursor=%d op=%r arg=%d count_typed=%d opkeys=%r tok=%r impl=%r model=%r" % (
+            unS(c[0]), c[1], c[2], c[3], c[4], unS(c[5]), c[6], show_res(a), show_res(m)),
         oracle_failed=lambda i: i in oracle_bad)
 
     k = 1500 if chk.tier == "thorough" else 300
@@ -733,14 +739,15 @@ def main(tier):
     chk.coverage["rule"] = (
         "key level: <count><operator><count><text object> fed to the key processor of a real Vi PromptSession on "
         "Document(text, cursor) in navigation mode, all texts of length <= %d over %r x all navigation-mode cursors x %d text objects x "
-        "counts %r, operator d at stratum %s (length-4 texts %s), the 12 other operators at %s, plus random longer texts; the same "
+        "counts %r, operator d at stratum %s (length-4 texts %s), the 14 other operators at %s, plus random longer texts; the same "
         "motion typed alone; object level: the real operator functions applied to random TextObject(start, end, type) of all four types, "
         "in and out of bounds, any cursor. Compared with the Coq model: status, text, cursor, clipboard data+type, named register "
         "name+data+type, insert mode, the TextObject returned by the real text-object function, failed flag. non-trivial = text, cursor "
         "or a register changed; distinct by hash of the model case" % (
             4 if thorough_(chk) else 3, ALPHA, len(MOTIONS), COUNTS_T if thorough_(chk) else COUNTS_Q,
-            "100%" if thorough_(chk) else "10%", "5%" if thorough_(chk) else "n/a", "0.8%"))
+            "100%" if thorough_(chk) else "10%", "5%" if thorough_(chk) else "n/a", "0.6%"))
     chk.assumptions += [
+        "a count of 1 typed explicitly (1dw) is not generated: counts are absent or > 1",
         "vi_mode() is true in Document.selection_ranges (every case runs under a Vi application)",
         "case operators: the theorems take an arbitrary string function; the correspondence uses ASCII text, where rot13/lower/upper/swapcase are the model's ASCII maps",
         "gq: str.splitlines(True) modelled for the newline character only; buffer.text_width = 0 (width 80)",
@@ -849,15 +856,15 @@ def replay(data):
             # a correspondence replay holds the model case; rebuild the implementation run from it
             mc = rep["case"]
             print("model case %r\n  impl then  %r\n  model then %r" % (mc, show_res(rep.get("impl")), show_res(rep.get("model"))))
-            text, cur, spec, arg, keys, tok, fx = unS(mc[0]), mc[1], tuple(mc[2]), mc[3], mc[4], tuple(mc[5]), mc[6]
-            opname = [k for k, v in OPS.items() if tuple(v[1]) == spec]
+            text, cur, spec, arg, hc, keys, tok, fx = unS(mc[0]), mc[1], tuple(mc[2]), mc[3], mc[4], mc[5], tuple(mc[6]), mc[7]
+            opname = [k for k, v in OPS.items() if tuple(v[1]) == spec and [ord(x) for x in v[0]] == keys]
             c = None
             if opname and fx == 1 and tok[0] != 0:
-                mn = [k for k, v in MOTIONS.items() if v["tok"] == tok and [ord(x) if len(x) == 1 else -1 for x in v["keys"]] == keys]
+                mn = [k for k, v in MOTIONS.items() if v["tok"] == tok]
                 if mn:
-                    c = key_case(text, cur, opname[0], mn[0], arg if arg > 1 else None, None)
+                    c = key_case(text, cur, opname[0], mn[0], arg if hc else None, None)
             elif opname and fx == 0 and tok[0] == 0:
-                c = ("O", text, cur, opname[0], (tok[1], tok[2], tok[3]), arg, [chr(k) for k in keys])
+                c = ("O", text, cur, opname[0], (tok[1], tok[2], tok[3]), arg, ["w"])
             if c is None:
                 print("  (cannot rebuild the key sequence of this case)")
                 m = run_model("c08", [mc])[0]
